@@ -104,6 +104,9 @@ META["rule"] += (
 META["rule"] += (
     " " + 'Added after the sixth round: wheels with 66, 70, 130 (thorough 140, 260) rim nodes (hub and rim betweenness, resistances, admittive degrees); circuits whose values are exact in single precision also from float32 / complex64 input (1e-5).')
 
+META["rule"] += (
+    " " + 'Added after the seventh round: the caller rescales every array it was handed before asking again (40 % of the histories); the array given to update_resistances is refilled right after the call (30 %).')
+
 RT = 1e-9
 
 
@@ -820,6 +823,13 @@ def check_history(ctx, RN, A, cid):
                 net.update_R()
         ok, exc = ctx.call(mutate)
         ctx.evals()
+        if ok and isinstance(arg, np.ndarray) and not inplace and \
+                arg.flags.writeable and rng.random() < 0.3:
+            # the caller goes on using the array it handed over (refills it
+            # for the next circuit) before the network is asked anything
+            arg *= 7
+            hist[-1]["array_refilled_by_caller_after_hand_over"] = True
+            ctx.count("history_array_refilled_after_hand_over")
         detail = {"n": n, "initial": r0, "history": hist,
                   "current": rn}
         if not ok:
@@ -868,6 +878,15 @@ def check_history(ctx, RN, A, cid):
         # read-only queries asked again, nothing changed in between: the
         # same answer, and the answers handed out before are still what
         # they were
+        caller_edits = bool(rng.random() < 0.4)
+        if caller_edits:
+            # the caller has worked on the arrays it was handed (rescaled
+            # them in place): they are the caller's
+            for m_, (live_, _) in held.items():
+                if isinstance(live_, np.ndarray) and live_.flags.writeable \
+                        and live_.dtype.kind in "fc":
+                    live_ *= 1000.0
+            ctx.count("history_answers_edited_by_caller")
         for m in [str(x) for x in rng.permutation(names)][:6]:
             if m not in held:
                 continue
@@ -881,7 +900,7 @@ def check_history(ctx, RN, A, cid):
                 ctx.violation(f"{m}:differs:asked-again",
                               {**detail, "first": held[m][1], "again": v3},
                               cid)
-            elif not same(held[m][0], held[m][1]):
+            elif not caller_edits and not same(held[m][0], held[m][1]):
                 ctx.violation(f"{m}:earlier-answer-modified",
                               {**detail, "was": held[m][1],
                                "is": held[m][0]}, cid)
